@@ -1,7 +1,8 @@
 ---------------------------- MODULE C16_MCServer ----------------------------
 (* Bounded instance + edge printing for part (b) of C16 (C16_AutoNAT). *)
 EXTENDS C16_AutoNAT, Json
-St == [acc |-> acc, ddacc |-> ddacc, phase |-> phase, cur |-> cur, idx |-> idx, rem |-> rem, parts |-> parts]
+St == [acc |-> acc, ddacc |-> ddacc, phase |-> phase, cur |-> cur, idx |-> idx, rem |-> rem, parts |-> parts,
+       prev |-> prev, prevAge |-> prevAge]
 EmitEdge == PrintT(<<"VFEDGE", ToJson([s |-> St, op |-> op', t |-> St'])>>)
 MCInit == Init /\ PrintT(<<"VFINIT", ToJson(St)>>)
 =============================================================================
